@@ -174,7 +174,7 @@ func c19GenSystem(t *rapid.T) c19Sys {
 	}
 
 	// ----- database app, two versions -----
-	nT := rapid.IntRange(2, 4).Draw(t, "ntables")
+	nT := rapid.IntRange(2, 5).Draw(t, "ntables")
 	tnames := []string{"Customer", "Account", "Txn", "Branch", "Product"}[:nT]
 	type col struct{ name, ty, attrs string }
 	tables := make([][]col, nT)
@@ -192,6 +192,24 @@ func c19GenSystem(t *rapid.T) c19Sys {
 				tables[i] = append(tables[i], col{strings.ToLower(tnames[j]) + "_id", tnames[j] + ".id", ""})
 			}
 		}
+	}
+	if nT >= 4 && rapid.Bool().Draw(t, "fkladder") {
+		// a chain 0 <- 1 <- 2 and a table that refers both to the head and to the tail of it: its place in
+		// the scripts is decided by the deepest of its targets, whichever foreign key is looked at last
+		hasFk := func(i, j int) bool {
+			for _, c := range tables[i] {
+				if c.ty == tnames[j]+".id" {
+					return true
+				}
+			}
+			return false
+		}
+		for _, e := range [][2]int{{1, 0}, {2, 1}, {3, 0}, {3, 2}} {
+			if !hasFk(e[0], e[1]) {
+				tables[e[0]] = append(tables[e[0]], col{strings.ToLower(tnames[e[1]]) + "_id", tnames[e[1]] + ".id", ""})
+			}
+		}
+		out.Classes = append(out.Classes, "db_table_refers_to_tables_of_depths_0_and_2")
 	}
 	renderDb := func(ww *c09w, tabs [][]col, names []string) {
 		ww.l(0, "Db [~db]:")
